@@ -49,7 +49,7 @@ TARGETS = [
     ("utils/mutations.py", ["flip_mutation", "best_1", "rand_1", "rand_to_best1", "current_to_best_1", "best_2", "rand_2",
                             "current_to_rand_1", "current_to_pbest_1_archive", "current_to_pbest_1_archive_p_min"]),
     ("optimizers/_differentialevolution.py", ["bounds_control"]),
-    ("optimizers/_shade.py", ["bounds_control_mean"]),
+    ("optimizers/_shade.py", ["bounds_control_mean", "randc01", "randn01"]),
     ("utils/_metrics.py", ["accuracy_score", "confusion_matrix", "recall_score", "precision_score", "f1_score"]),
 ]
 # functions without an @njit signature: parameter / return types written as the signature would be
@@ -569,6 +569,17 @@ class Translator:
                     raise Untranslatable(e, "effectful bound of uniform")
             n, _ = self.expr(fn, sc, kw["size"], pre, Z)
             return self.eff(fn, pre, f"(popXs {n})", L(Q), e)
+        if name in ("cauchy_distribution", "np.random.normal"):
+            # real-valued primitives: n results, each logged after the affine map loc + scale*x (Draws convention, DESIGN §4);
+            # loc / scale are evaluated (effect-free only)
+            kw = self._kwargs(e, ["loc", "scale", "size"])
+            for k in ("loc", "scale"):
+                sub = []
+                self._expr(fn, sc, kw[k], sub)
+                if sub:
+                    raise Untranslatable(e, "effectful argument of a real-valued primitive")
+            n, _ = self.expr(fn, sc, kw["size"], pre, Z)
+            return self.eff(fn, pre, f"(popXs {n})", L(Q), e)
         # ---- translated functions
         if isinstance(f, ast.Name) and f.id in self.funcs:
             info = self.funcs[f.id]
@@ -681,6 +692,8 @@ class Translator:
             c, t = self._expr(fn, sc, value, pre)
             if t == B and isinstance(value, ast.Compare) and c.startswith("(eqmaskZ"):
                 t = L(B)
+            if t == Z and sc.env.get(target.id) == Q and target.id not in sc.poisoned:
+                c, t = f"(ZtoQ {c})", Q          # an int stored into a float variable (numba unifies the type to float64)
             fresh = is_list(t) and self.is_alloc(value)
             if is_list(t) and isinstance(value, ast.Name):
                 sc.fresh.discard(value.id)         # alias: neither name may be stored into any more
